@@ -42,7 +42,9 @@ def partition_dtype(repo, res):
 
     x0, x1, f_, g_ = uexpr("SpatialCoordinate", "x0"), uexpr("SpatialCoordinate", "x1"), uexpr("Coefficient", "f"), uexpr("Coefficient", "g")
     half = uexpr("FloatValue", "half", literal=True)
+    half.f["value"] = 0.5
     two = uexpr("IntValue", "two", literal=True)
+    two.f["value"] = 2
     prod = uexpr("Product", "x0_times_x1", [x0, x1])
     sumx = uexpr("Sum", "prod_plus_x0", [prod, x0])
     lt = uexpr("LT", "sum_lt_half", [sumx, half])
@@ -54,8 +56,10 @@ def partition_dtype(repo, res):
     cond2 = uexpr("Conditional", "cond_x0_fx", [gt, x0, fx])
     sq = uexpr("Sqrt", "sqrt_prod", [prod])
     ge = uexpr("GE", "sqrt_ge_half", [sq, half])
+    pw = uexpr("Power", "x0_pow_f", [x0, f_])  # real base, complex exponent: the value is complex
+    pw2 = uexpr("Power", "x0_pow_two", [x0, two])
     terminal_types = {"x0": "DataType.REAL", "x1": "DataType.REAL", "f": "DataType.SCALAR", "g": "DataType.SCALAR"}
-    ops_nodes = [prod, sumx, lt, twof, cond, ref, gt, fx, cond2, sq, ge]
+    ops_nodes = [prod, sumx, lt, twof, cond, ref, gt, fx, cond2, sq, ge, pw, pw2]
     nodes = {}
     for t in (x0, x1, f_):
         nodes[len(nodes)] = {"status": "varying", "expression": t, "mt": Node("ModifiedTerminal", name=t.f["name"]), "tr": Node("Table", name="FE_" + t.f["name"])}
@@ -95,25 +99,20 @@ def partition_dtype(repo, res):
         def defs_get(mt, tabledata, rule, acc, _I=I):
             return Node("Section", name=f"def_{mt.f['name']}", statements=[], declarations=[], input=[], output=[])
 
-        def to_lnodes(v, *ops, _I=I):
-            if v.f.get("_ufl_is_literal_"):
-                return _I.construct("Symbol", [f"lit_{v.f['name']}", lit_types[v.f["name"]]], {})
-            ts = []
-            for o in ops:
-                if not isinstance(o, Node) or "dtype" not in o.f:
-                    raise AnalysisError(f"operand of {v.f['name']} handed to ufl_to_lnodes is {o!r}, not a typed access")
-                ts.append(o.f["dtype"])
-            if v.cls in ("LT", "GT", "LE", "GE"):
-                t = "DataType.BOOL"
-            elif v.cls in ("Real", "Imag"):
-                t = "DataType.REAL"
-            elif v.cls == "Conditional":
-                t = _join(ts[1:])
-            else:
-                t = _join(ts)
-            e = _I.construct("Symbol", [f"op_{v.f['name']}", t], {})
-            return e
-        I.overrides["L.ufl_to_lnodes"] = _PyCall(to_lnodes)
+        # the real L.ufl_to_lnodes is interpreted: its dispatch table is keyed by UFL classes, which the sample nodes carry by name
+        lm = repo.mod("ffcx.codegeneration.lnodes")
+        import ast as _ast
+        tbl = lm.assigns.get("_ufl_call_lookup")
+        if not isinstance(tbl, _ast.Dict):
+            raise AnalysisError("lnodes._ufl_call_lookup is not a dict literal")
+        from ..absint import _Cls
+        from ..model import dotted as _dotted
+        for k_ in tbl.keys:
+            d_ = _dotted(k_)
+            if d_:
+                I.overrides[d_] = _Cls(d_.split(".")[-1])
+        for nm_ in ("_ufl_handler_name_",):
+            pass
         I.overrides["optimize"] = _PyCall(lambda code, rule=None: code)
         I.extra_bases.update({"LT": ("Condition",), "GT": ("Condition",), "GE": ("Condition",), "LE": ("Condition",)})
         I.overrides["ufl.classes.Condition"] = "Condition"
@@ -143,14 +142,14 @@ def partition_dtype(repo, res):
             res.fail(key0, f"{cls}.generate_partition raises ({e.what}) on the typed sample graph", loc)
             continue
         decls = {}
+        found = []
 
         def walk(x):
             if isinstance(x, Node):
                 if x.cls == "VariableDecl":
                     s_ = x.f.get("symbol")
-                    val = x.f.get("value")
-                    if isinstance(val, Node) and str(val.f.get("name", "")).startswith("op_"):
-                        decls[val.f["name"][3:]] = s_.f.get("dtype") if isinstance(s_, Node) else None
+                    found.append(s_.f.get("dtype") if isinstance(s_, Node) else None)
+                    return
                 for y in x.f.values():
                     walk(y)
             elif isinstance(x, (list, tuple)):
@@ -160,6 +159,10 @@ def partition_dtype(repo, res):
                 for y in x.values():
                     walk(y)
         walk(parts)
+        # one intermediate per operator node, in graph order
+        if len(found) != len(ops_nodes):
+            raise AnalysisError(f"{gp.key}: {len(found)} intermediates declared for {len(ops_nodes)} operator nodes of the sample graph")
+        decls = {o.f["name"]: t for o, t in zip(ops_nodes, found)}
         declared[cls] = decls
         types = dict(terminal_types)
         types.update(lit_types)
